@@ -139,6 +139,20 @@ def check(col, prog, tier, profile, fixture=None):
                         loads.setdefault(tgt, []).append((b, bb, nm))
                     if nm != "load":
                         stores.setdefault(tgt, []).append((b, bb, nm))
+    # a shared static behind a lock that the reachable set takes for writing (`static RNG: Mutex<Rng>`; `RNG.lock()`): every
+    # access is synchronised - no data race - but the state is one for all threads, so what a thread draws and builds depends
+    # on what the others did before and meanwhile
+    for key, b in sorted(reach.items()):
+        for bb, t in b.calls():
+            fn = t["fn"]
+            p_ = str(fn.get("path", ""))
+            nm_ = fn.get("name") or ""
+            if ("sync::Mutex" in p_ or "sync::RwLock" in p_ or "sync::poison::mutex::Mutex" in p_ or "sync::poison::rwlock::RwLock" in p_) and nm_ in ("lock", "try_lock", "write", "try_write", "get_mut"):
+                tgt = _arg_static(b, t)
+                s_ = statics.get(tgt) if tgt is not None else None
+                if s_ is not None and not s_["thread_local"]:
+                    col.violation("U1b", "%s|lock-shared|%s" % (util.fkey(b), s_["path"]), b.loc(bb), "%s takes the process-wide static %s (%s) for writing: the accesses are synchronised, but the state is shared by all threads - a thread's priority stream and the shapes of its treaps depend on the progress of other threads (not what the thread would see alone)" % (b.path, s_["path"], s_["ty"]))
+                    col.obligation(False)
     # a shared atomic that the reachable set both writes and reads carries information from one thread to another: a separate
     # load and store loses or duplicates draws; even a single read-modify-write (a per-thread seed taken with fetch_add in
     # the thread-local initialiser) makes what a thread sees depend on how many threads came before it
